@@ -49,8 +49,8 @@ def run_mode(rep, mode, tier, seed, replay, tag):
             r = replay.get("replay", {})
             b, i, x = r.get("backend"), r.get("instruction"), r.get("input")
             if b and i and x is not None:
+                # the recorded input is evaluated first for that (backend, instruction); the rest of the run is the normal one
                 extra = ["--replay-backend", str(b), "--replay-inst", str(i), "--replay-input", str(x)]
-                shards = [[str(b)]]
         timeout = 900 if tier == "quick" else 5400
 
         def one(k):
